@@ -113,7 +113,7 @@ pub fn run_property(prop: &str, tier: &str, threads: usize, budget: &Budget, fin
     if std::env::var("LSVERIF_HOSTED_PLAN").is_ok_and(|p| p == "big") {
         // texts around the largest length a heap handle stores inline (32-bit targets only)
         let d: usize = std::env::var("LSVERIF_DEPTH").ok().and_then(|s| s.parse().ok()).unwrap_or(1);
-        report.rule = format!("big-length exploration: every sequence of at most {d} operations (push, push_str, pop, three truncations, clear, insert, remove, two reservations, two reservations that must be refused, two shrinks, drop, clone, clone_from) on two slots from {} roots (texts of B-2..=B+2 bytes; buffers of capacity B, B+1, B+3 holding nothing, 10 bytes, B-1 bytes or capacity-many bytes; borrowed static texts of B-1, B, B+1 bytes; B = {} is the largest length a heap handle stores in its own second word), next to a String model; oracles of {prop}: outcome, text, length, capacity, exact shrink, every block released once with its layout, nothing left allocated; distinct = distinct (root kind, last operation)", crate::big::roots().len(), crate::big::B);
+        report.rule = format!("big-length exploration: every sequence of at most {d} operations (push, push_str, pop, three truncations, clear, insert, insert_str, extend, remove, two reservations, two reservations that must be refused, two shrinks, drop, clone, clone_from) on two slots from {} roots (texts of B-2..=B+2 bytes; buffers of capacity B, B+1, B+3 holding nothing, 10 bytes, B-1 bytes or capacity-many bytes; borrowed static texts of B-1, B, B+1 bytes; B = {} is the largest length a heap handle stores in its own second word), next to a String model; oracles of {prop}: outcome, text, length, capacity, exact shrink, every block released once with its layout, nothing left allocated; distinct = distinct (root kind, last operation)", crate::big::roots().len(), crate::big::B);
         report.bounds.push(format!("target: {} bit, {} endian{}", usize::BITS, if cfg!(target_endian = "big") { "big" } else { "little" }, if std::env::var("LSVERIF_MIRI").is_ok() { " (executed by Miri)" } else { "" }));
         if !crate::big::applicable() {
             report.bounds.push("not applicable on this target: B = 2^56 - 2 cannot be reached".into());
